@@ -9,15 +9,19 @@ def configs(tier):
         ('children+element forms 2occ x 2slots', dict(family='one_level', fam_kw=dict(occ=2, slots=2, attrs=0, text=False, leaf_form=True, pool=2))),
         ('attributes 3occ x 2attrs', dict(family='one_level', fam_kw=dict(occ=3, slots=0, attrs=2, text=False, pool=3))),
         ('text/CDATA 3occ', dict(family='one_level', fam_kw=dict(occ=3, slots=1, attrs=0, text=True, leaf_form=False, pool=1))),
-        ('extend: root children 3docs x 2slots', dict(family='root_level', fam_kw=dict(docs=3, slots=2, attrs=0, text=False, pool=3))),
-        ('extend: root attributes+text 3docs', dict(family='root_level', fam_kw=dict(docs=3, slots=1, attrs=1, text=True, pool=1))),
+        ('extend: root children 3docs x 2slots', dict(family='root_level', fam_kw=dict(docs=3, slots=2, attrs=0, text=False, pool=3, leaf_form=False))),
+        ('extend: root attributes+text 3docs', dict(family='root_level', fam_kw=dict(docs=3, slots=0, attrs=1, text=True, pool=1))),
         ('extend: 2docs x 2occ x 2slots', dict(family='one_level', fam_kw=dict(docs=2, occ=2, slots=2, attrs=0, text=False, leaf_form=False, p_form=False, pool=2))),
-        ('nested 2occ x 2slots x 2grandchildren', dict(family='one_level', fam_kw=dict(occ=2, slots=2, gslots=2, attrs=0, text=False, leaf_form=False, p_form=False, pool=2))),
-        ('free names width3 depth2', dict(family='free', fam_kw=dict(width=3, depth=2, pool=2))),
+        ('nested 2occ x 2slots x 1grandchild', dict(family='one_level', fam_kw=dict(occ=2, slots=2, gslots=1, attrs=0, text=False, leaf_form=False, p_form=False, pool=2))),
         ('rendered schema 2occ x 2slots + attr + text', dict(family='one_level', fam_kw=dict(occ=2, slots=2, attrs=1, text=True, leaf_form=False, pool=2), render='quick_xml_de')),
     ]
     if tier == 'quick': return q
     t = q + [
+        ('free names width2 depth2', dict(family='free', fam_kw=dict(width=2, depth=2, pool=2))),
+        ('extend: root child+attribute+text 3docs', dict(family='root_level', fam_kw=dict(docs=3, slots=1, attrs=1, text=True, pool=1))),
+        ('extend: root children 3docs x 2slots with element forms', dict(family='root_level', fam_kw=dict(docs=3, slots=2, attrs=0, text=False, pool=3))),
+        ('nested 2occ x 2slots x 2grandchildren', dict(family='one_level', fam_kw=dict(occ=2, slots=2, gslots=2, attrs=0, text=False, leaf_form=False, p_form=False, pool=2))),
+        ('free names width3 depth2', dict(family='free', fam_kw=dict(width=3, depth=2, pool=2))),
         ('children 4occ x 2slots', dict(family='one_level', fam_kw=dict(occ=4, slots=2, attrs=0, text=False, leaf_form=False, pool=3))),
         ('children 3occ x 3slots', dict(family='one_level', fam_kw=dict(occ=3, slots=3, attrs=0, text=False, leaf_form=False, pool=3))),
         ('children+forms 3occ x 2slots', dict(family='one_level', fam_kw=dict(occ=3, slots=2, attrs=0, text=False, leaf_form=True, pool=3))),
@@ -32,6 +36,19 @@ def configs(tier):
     ]
     return t
 
+def steps(tier):
+    """inductive step (DESIGN §3.4): one more occurrence from an ARBITRARY pre-state (symbolic tags, flags, 32-bit counters, vector order)"""
+    q = [('inductive step: 2 old children, 2 slots, 1 new name', dict(k=2, j=0, slots=2, new=1, attr_slots=0, with_text=False)),
+         ('inductive step: 1 old child, 2 slots, 1 new name, text, new attribute', dict(k=1, j=0, slots=2, new=1)),
+         ('inductive step: 2 old attributes', dict(k=0, j=2, slots=0, new=0)),
+         ('inductive step one level down: 1 old child with a grandchild, 2 slots', dict(k=1, j=0, slots=2, new=1, gk=1))]
+    if tier == 'quick': return q
+    return q + [('inductive step: 2 old children, 2 slots, 1 new name, text, attribute', dict(k=2, j=0, slots=2, new=1)),
+                ('inductive step: 3 old children, 2 slots, 1 new name', dict(k=3, j=0, slots=2, new=1, attr_slots=0, with_text=False)),
+                ('inductive step: 2 old children, 3 slots, 2 new names', dict(k=2, j=0, slots=3, new=2)),
+                ('inductive step: 2 old children + 1 old attribute', dict(k=2, j=1, slots=2, new=1)),
+                ('inductive step one level down: 2 old children with a grandchild', dict(k=2, j=0, slots=2, new=0, gk=1))]
+
 def main():
     c = Check('C03')
     c.assumptions = [
@@ -39,12 +56,15 @@ def main():
         'element/attribute names range over a pool of <= 4 distinct strings per position (the parser only compares names; a character-level inspection of a name is detected and makes the path inconclusive)',
         'HashMap iteration uses insertion order here; independence of the result from that order is C05',
         'std Vec/Option/Result/String/iterator methods follow their documented contracts (library models of rsym)',
+        'inductive step: the pre-state of an element node is arbitrary (k old children / j old attributes with symbolic Mandatory/Optional tags, standalone flags, 32-bit counters < 2^32 - slots - 1, any order of the private children vector, any text flag); one more occurrence must update it exactly. With the first-occurrence base case of the skeleton harnesses this covers ANY number of occurrences and documents at one level; extend_struct runs the same build_struct on a wrapper (src/parser.rs:76-79)',
     ]
     if c.setup():
         for label, kw in configs(c.tier):
             c.run(label, 'rsym.hb', 'ExactInference', kw,
                   required_witnesses=() if 'attributes' in label or 'text' in label else ('some child Optional',))
-    c.finish(bounds={'skeletons': [l for l, _ in configs(c.tier)], 'depth': '<= 3 element levels below the root (4 in the thorough free-name family)', 'name_pool': '<= 4 distinct names per position'},
+        for label, kw in steps(c.tier):
+            c.run(label, 'rsym.hb', 'InductiveStep', kw, time_cap=250 if c.tier == 'quick' else 3400, path_cap=400000 if c.tier == 'quick' else 6000000)
+    c.finish(bounds={'skeletons': [l for l, _ in configs(c.tier)], 'inductive_steps': [l for l, _ in steps(c.tier)], 'depth': '<= 3 element levels below the root (4 in the thorough free-name family)', 'name_pool': '<= 4 distinct names per position'},
              outside=['documents wider/deeper than the listed skeletons', 'names that the code would inspect character by character (none on the unchanged tree)', 'quick_xml tokenising'],
              trusted=['rsym interpreter + library models (re-validated by the conformance gate on every run)', 'z3', 'tools/replay (native replay)'],
              technique='symbolic execution of the parser source over symbolic document skeletons; per path z3 decides the two-sided inference oracle (PC and not(agreement) unsat)')
